@@ -217,7 +217,7 @@ package standard
 //@   requires !isnil(event.Data) ==> hastype(event.Data, "*apiv1.HeadEvent") && unbox(event.Data, "*apiv1.HeadEvent") != nil
 //@   // epoch: the epoch of the event's slot as answered by the chain time service at the start of the handler
 //@   loop 1
-//@     invariant forall e phase0.Epoch :: visited(e) && u64(e + 2) <= epoch ==> !in(s.subscriptionInfos, e)
+//@     invariant forall e phase0.Epoch :: visited(e) && e + 2 <= epoch ==> !in(s.subscriptionInfos, e)
 //@   at call Unlock#1: assert forall e phase0.Epoch {in(s.subscriptionInfos, e)} :: in(s.subscriptionInfos, e) ==> e + 2 > epoch
 //@
 //@ // the wall-clock epoch is (now - genesis) / (slot duration * slots per epoch): far below 2^62 for any clock
